@@ -8,8 +8,8 @@ from core import reaches_call
 
 LEVEL = "proof"
 EXPLANATION = ("Counting rules on all MIR paths: a read API records exactly one access iff it returns a value; the "
-               "buffer pushes exactly once per access and clears only after handing a clone of the same vector "
-               "over; the hand-over accounts each full buffer exactly once as added (only if the non-blocking send "
+               "buffer pushes exactly once per access, clears only after handing a clone of the same vector "
+               "over and is touched mutably by nothing else (it only grows between hand-overs); the hand-over accounts each full buffer exactly once as added (only if the non-blocking send "
                "succeeded) or dropped; the consumer applies each received buffer exactly once; no read API can "
                "reach a blocking channel operation or the sketch lock.")
 ASSUMPTIONS = ["crossbeam select! with a default arm lowers to try_select (non-blocking)"]
